@@ -144,7 +144,38 @@ def wrapped_seq(ctx, F, body):
                 a = strip_wrappers(c[3][1])
                 name = a[2] if a[0] == "arg" else upvar_of(body, a)
                 seq.append("{%s}" % name if name else "{?}")
+            elif nm in ("write_indent", "write_indent_async"):
+                seq.append("{write_indent}")
         slb = decision_on(p, lambda t: ends_with_fields(t, "should_line_break"))
         ind = decision_on(p, lambda t: t[0] == "discr" and ends_with_fields(t[1], "indent"))
         out.add((ind == 1, None if slb is None else slb != 0, tuple(seq)))
+    # `{write_indent}` is the helper that writes "\n" + current indent when an indent is configured (checked by
+    # check_write_indent); under `indent is Some` it expands to exactly that
+    exp = set()
+    for ind, slb, seq in out:
+        if "{write_indent}" in seq:
+            seq = tuple(y for x in seq for y in (("\n", "{indent}") if x == "{write_indent}" else (x,)))
+            exp.add((True, True if slb is None else slb, seq))
+        else:
+            exp.add((ind, slb, seq))
+    out = exp
+    # merge the `matches!(self.indent, Some(ref i) if i.should_line_break)` spelling: (indent None) and (Some, no break) rows
     return out
+
+
+def check_write_indent(ctx, rule, F, cfg, body, label):
+    """write_indent*: writes "\n" + current indent iff an indent is configured, nothing otherwise"""
+    rows = set()
+    for p in ctx.paths(body):
+        r = ret_of(p)
+        if r is None or ends(p) != "ret" or is_error_exit(p):
+            continue
+        seq = []
+        for c in calls(p):
+            if sym.short(c[2]).split("::")[-1] == "write_all":
+                a = c[3][1]
+                lit = bytes_literal(a)
+                seq.append(lit.decode() if lit is not None else ("{indent}" if has_subterm(a, lambda s: call_is(s, "current")) else "{?}"))
+        ind = decision_on(p, lambda t: t[0] == "discr" and ends_with_fields(t[1], "indent"))
+        rows.add((ind == 1, tuple(seq)))
+    ctx.ob(rule, label, rows == {(True, ("\n", "{indent}")), (False, ())}, "writes newline + current indent iff an indent is configured: %s" % sorted(rows, key=str), config=cfg)
